@@ -21,6 +21,9 @@ import ShapeVerif.Gen.Arith
 import ShapeVerif.Gen.Integrals
 import ShapeVerif.Proofs.ChordCutGen
 
+set_option linter.unusedTactic false
+set_option linter.unreachableTactic false
+
 namespace ShapeVerif.C04
 open ShapeVerif
 
@@ -89,14 +92,17 @@ theorem area_exact_up_to_degree_5 (s : Seg) (hs : 2 ≤ s.length) (hd : s.degree
 
 /-- `Math.open_linspace(n)` as written in the source is the node list of the model: (2i+1)/(2n), i < n -/
 theorem source_open_linspace_is_model (n : Nat) : Gen.openLinspace n = openNodes n := by
-  simp only [Gen.openLinspace, openNodes]
-  have h : (2 * n - 1 + 1) / 2 = n := by omega
-  rw [h]
-  apply List.ext_getElem
-  · simp
-  · intro i h1 h2
-    simp only [List.getElem_map, List.getElem_range', List.getElem_range]
-    rw [Nat.add_comm 1 (2 * i)]
+  -- (two scripts: the source written as `Fraction(2k+1, 2n) for k in range(n)` is the model verbatim; the stepped range needs index arithmetic)
+  first
+  | rfl
+  | (simp only [Gen.openLinspace, openNodes]
+     have h : (2 * n - 1 + 1) / 2 = n := by omega
+     rw [h]
+     apply List.ext_getElem
+     · simp
+     · intro i h1 h2
+       simp only [List.getElem_map, List.getElem_range', List.getElem_range]
+       rw [Nat.add_comm 1 (2 * i)])
 
 /-- `Math.closed_linspace(n)` as written in the source: i/(n−1), i < n; first node 0, last node 1 -/
 theorem source_closed_linspace (n : Nat) : Gen.closedLinspace n = (List.range n).map fun i => ((i : Nat) : Rat) / ((n - 1 : Nat) : Rat) := by
